@@ -280,7 +280,76 @@ fn check_tuned(c: &LoopCase) -> Verdict {
     }
 }
 
+// ---------------------------------------------------------------------------
+// Budget routes: `min_time`, `max_time` and `skip_ext_time` reach the sampling
+// loop unchanged whichever way the user sets them - attribute, group, builder
+// call before `config_with_args()`, flag, environment variable - and a zero
+// `max_time` from any of them means no sample at all. Runs a registered twin
+// through `config_with_args()` + `main()` with the command line parsed in this
+// process; judged by C15's reference resolution, restricted to the three time
+// fields and the call count (other fields are C03's / C15's business).
+
+use super::{
+    c03::{self, BuilderCliCase},
+    c15,
+    twin::{self, OptSpec},
+    twingen,
+};
+
+fn budget_opts() -> impl Strategy<Value = OptSpec> {
+    (
+        prop_oneof![2 => Just(OptSpec::default()), 1 => c15::runner_opts()],
+        proptest::option::weighted(0.4, prop_oneof![Just(0u64), Just(2_000_000_000u64)]),
+        proptest::option::weighted(0.4, any::<bool>()),
+        proptest::option::weighted(0.3, 1u64..=1000),
+    )
+        .prop_map(|(mut o, max, skip, min)| {
+            o.max_time_ns = max;
+            o.skip_ext_time = skip;
+            o.min_time_ns = min;
+            o
+        })
+}
+
+fn budget_route_case() -> impl Strategy<Value = BuilderCliCase> {
+    (twingen::spec_with(0.4), budget_opts(), budget_opts(), budget_opts(), any::<bool>()).prop_map(|(mut spec, builder, flags, env, bench_mode)| {
+        c03::keep_short(&mut spec);
+        BuilderCliCase { spec, builder, flags, env, bench_mode }
+    })
+}
+
+fn check_budget_route(c: &BuilderCliCase) -> Verdict {
+    let runner = c03::merge(&c.flags, &c.env, &c.builder);
+    let mut args: Vec<String> = vec![if c.bench_mode { "--bench".into() } else { "--test".into() }, "--timer".into(), "tsc".into()];
+    args.extend(c15::cli_args(&c.flags));
+    let mut env = c15::cli_env(&c.env);
+    env.push(("VCHECK_TWIN_BUILDER".into(), serde_json::to_string(&c.builder).unwrap()));
+    let (run, code, stderr) = match twin::with_cli_in_process(|| twin::run_child(&c.spec, &args, &env, "c04")) {
+        Ok(r) => r,
+        Err(e) => return Verdict::Inconclusive(e),
+    };
+    if code != 0 {
+        return Verdict::fail("cli-exit", format!("exit code {code} for {args:?} {env:?}: {stderr}"));
+    }
+    let time_set = |o: &OptSpec| o.min_time_ns.is_some() || o.max_time_ns.is_some() || o.skip_ext_time.is_some();
+    let sources = [&c.builder, &c.flags, &c.env].iter().filter(|o| time_set(o)).count();
+    match c15::judge(&c.spec, &runner, 0, c.bench_mode, &run) {
+        Ok(_) => {
+            classify(format!("time fields from {sources} of builder/flag/env"));
+            Verdict::pass(sources >= 1 && !run.invocations.is_empty())
+        }
+        Err((sig, msg)) if matches!(sig.as_str(), "field:min_time" | "field:max_time" | "field:skip_ext_time" | "calls" | "runner-panic") => {
+            Verdict::fail(format!("route:{sig}"), format!("{msg}\nbuilder {:?}\nargs {args:?} env {env:?}", c.builder))
+        }
+        Err(_) => {
+            classify("another field differs (not judged here)".to_string());
+            Verdict::pass(false)
+        }
+    }
+}
+
 fn groups(g: &mut Groups) {
+    g.prop("budget_routes", 8_000, 400_000, || budget_route_case(), check_budget_route);
     g.prop("tuned", 9_000, 500_000, || super::c19::case(), check_tuned);
     g.enumerate("ties", ties, false, check_case);
     g.enumerate("one_ns_floor", floor_cases, false, check_case);
